@@ -1,16 +1,17 @@
 // C19: every shard ensemble has RF distinct eligible servers and respects anti-affinity.
 //
 // Exhaustive input enumeration ("exploration") of the REAL selector chain and the REAL balancer:
-//   A. coordinator.selectNewEnsemble (real ensemble.Selector, real ClusterConfigResource) for every
-//      cluster of 1..5 servers x zone/rack label assignment x policy x RF x every order in which the
-//      load-ratio list can present equally loaded servers (the only nondeterminism of that path);
-//   B. ensemble.Selector without a load-ratio supplier: every ServerIdx (finalSelector), repeated
-//      because the candidate order then depends on Go map iteration; and Status=nil (random pick);
-//   C. selectNewEnsemble on top of every existing placement (all multisets of <=3 shards);
-//   D. one real rebalanceEnsemble round for every status (0-1 removed server), the emitted
-//      SwapNodeActions applied in emission order through the real replaceInList;
-//   E. a small E1 search (lib/seqx): add namespace / add+remove server / rebalance sequences through
-//      the real ApplyClusterChanges + balancer.
+//
+//	A. coordinator.selectNewEnsemble (real ensemble.Selector, real ClusterConfigResource) for every
+//	   cluster of 1..5 servers x zone/rack label assignment x policy x RF x every order in which the
+//	   load-ratio list can present equally loaded servers (the only nondeterminism of that path);
+//	B. ensemble.Selector without a load-ratio supplier: every ServerIdx (finalSelector), repeated
+//	   because the candidate order then depends on Go map iteration; and Status=nil (random pick);
+//	C. selectNewEnsemble on top of every existing placement (all multisets of <=3 shards);
+//	D. one real rebalanceEnsemble round for every status (0-1 removed server), the emitted
+//	   SwapNodeActions applied in emission order through the real replaceInList;
+//	E. a small E1 search (lib/seqx): add namespace / add+remove server / rebalance sequences through
+//	   the real ApplyClusterChanges + balancer.
 package main
 
 import (
@@ -22,6 +23,7 @@ import (
 	"log/slog"
 	"os"
 	"runtime"
+	"runtime/pprof"
 	"sort"
 	"strings"
 	"sync"
@@ -52,8 +54,9 @@ const maxN = 5
 
 var srvID = []string{"s1", "s2", "s3", "s4", "s5", "x1"} // index maxN ("x1") = a server removed from the config
 var srvVal []model.Server
-var zoneVal = []string{"", "za", "zb", "zc"}
-var rackVal = []string{"", "rx", "ry"}
+var zoneVal = []string{"", "za", "zb", "zc", "zd"}
+var rackVal = []string{"", "rx", "ry", "rz", "rw"}
+var typeVal = []string{"", "ta", "tb", "tc", "td"}
 
 func init() {
 	for _, id := range srvID {
@@ -79,6 +82,48 @@ var pols = map[string]*policies.Policies{
 }
 var polNames = []string{"none", "Z", "ZR"}
 
+// policyByName: "none" / "Z" / "ZR" (parts A-F) or a rule list "Zs.Rr.Ts" (parts G-I): one token per
+// anti-affinity rule, in order; first letter = label (Z zone, R rack, T type), second letter = mode
+// (s Strict, r Relaxed).
+var polCache sync.Map
+
+func policyByName(name string) *policies.Policies {
+	if p, ok := pols[name]; ok {
+		return p
+	}
+	if p, ok := polCache.Load(name); ok {
+		return p.(*policies.Policies)
+	}
+	p := &policies.Policies{}
+	for _, tok := range strings.Split(name, ".") {
+		if len(tok) != 2 {
+			panic("bad policy name " + name)
+		}
+		a := policies.AntiAffinity{}
+		switch tok[0] {
+		case 'Z':
+			a.Labels = []string{"zone"}
+		case 'R':
+			a.Labels = []string{"rack"}
+		case 'T':
+			a.Labels = []string{"type"}
+		default:
+			panic("bad policy name " + name)
+		}
+		switch tok[1] {
+		case 's':
+			a.Mode = policies.Strict
+		case 'r':
+			a.Mode = policies.Relaxed
+		default:
+			panic("bad policy name " + name)
+		}
+		p.AntiAffinities = append(p.AntiAffinities, a)
+	}
+	polCache.Store(name, p)
+	return p
+}
+
 // strict single-label rules: the only rules the property (and this oracle) speaks about
 func strictLabels(p *policies.Policies) []string {
 	var out []string
@@ -93,7 +138,35 @@ func strictLabels(p *policies.Policies) []string {
 	return out
 }
 
-func mkMetadata(n int, zone, rack []int) map[string]model.ServerMetadata {
+type strictRule struct {
+	label string
+	idx   int // position in the rule list (0-based)
+	of    int // number of rules of the policy
+}
+
+func strictRules(p *policies.Policies) []strictRule {
+	var out []strictRule
+	if p == nil {
+		return nil
+	}
+	for i, a := range p.AntiAffinities {
+		if a.Mode == policies.Strict && len(a.Labels) == 1 {
+			out = append(out, strictRule{a.Labels[0], i, len(p.AntiAffinities)})
+		}
+	}
+	return out
+}
+
+// keySuffix: policies with three or more rules get the position of the violated rule in the key
+// (a rule in the middle of the list dropping out is another failure class than "rules ignored").
+func (r strictRule) keySuffix() string {
+	if r.of < 3 {
+		return ""
+	}
+	return fmt.Sprintf(":rule%dof%d", r.idx+1, r.of)
+}
+
+func mkMetadata(n int, zone, rack, typ []int) map[string]model.ServerMetadata {
 	md := map[string]model.ServerMetadata{}
 	for i := 0; i < n; i++ {
 		l := map[string]string{}
@@ -102,6 +175,9 @@ func mkMetadata(n int, zone, rack []int) map[string]model.ServerMetadata {
 		}
 		if rack != nil && rack[i] > 0 {
 			l["rack"] = rackVal[rack[i]]
+		}
+		if typ != nil && typ[i] > 0 {
+			l["type"] = typeVal[typ[i]]
 		}
 		if len(l) > 0 {
 			md[srvID[i]] = model.ServerMetadata{Labels: l}
@@ -249,7 +325,8 @@ func checkEnsemble(ids []string, rf int, n int, md map[string]model.ServerMetada
 			return &viol{"ensemble:member-not-in-cluster", fmt.Sprintf("ensemble %v: %s is not one of the %d servers of the cluster", ids, id, n)}
 		}
 	}
-	for _, label := range strictLabels(pol) {
+	for _, rule := range strictRules(pol) {
+		label := rule.label
 		vals := map[string]string{}
 		for _, id := range ids {
 			v, ok := md[id].Labels[label]
@@ -258,7 +335,7 @@ func checkEnsemble(ids []string, rf int, n int, md map[string]model.ServerMetada
 				continue
 			}
 			if other, dup := vals[v]; dup {
-				return &viol{"ensemble:anti-affinity-violated", fmt.Sprintf("ensemble %v: %s and %s share %s=%s under a strict anti-affinity rule", ids, other, id, label, v)}
+				return &viol{"ensemble:anti-affinity-violated" + rule.keySuffix(), fmt.Sprintf("ensemble %v: %s and %s share %s=%s under strict anti-affinity rule %d of %d", ids, other, id, label, v, rule.idx+1, rule.of)}
 			}
 			vals[v] = id
 		}
@@ -300,8 +377,10 @@ func feasible(n, rf int, md map[string]model.ServerMetadata, pol *policies.Polic
 // ---------------------------------------------------------------- worker
 
 type wk struct {
-	vc        *coordinator.VerifCoordinator
-	sel       interface{ Select(*ensemble.Context) ([]string, error) }
+	vc  *coordinator.VerifCoordinator
+	sel interface {
+		Select(*ensemble.Context) ([]string, error)
+	}
 	prio      []int // tie priority: server indices in order
 	shardDesc bool
 	cfgSet    bool
@@ -309,6 +388,7 @@ type wk struct {
 	cPol      string
 	cZone     []int
 	cRack     []int
+	cType     []int
 	cMd       map[string]model.ServerMetadata
 	cNsc      *model.NamespaceConfig
 	cFeasible bool
@@ -359,21 +439,21 @@ func eqInts(a, b []int) bool {
 	return true
 }
 
-func (w *wk) setConfig(n int, zone, rack []int, pol string, rf int) (map[string]model.ServerMetadata, *model.NamespaceConfig) {
-	if w.cfgSet && w.cN == n && w.cPol == pol && w.cRF == rf && eqInts(w.cZone, zone) && eqInts(w.cRack, rack) {
+func (w *wk) setConfig(n int, zone, rack, typ []int, pol string, rf int) (map[string]model.ServerMetadata, *model.NamespaceConfig) {
+	if w.cfgSet && w.cN == n && w.cPol == pol && w.cRF == rf && eqInts(w.cZone, zone) && eqInts(w.cRack, rack) && eqInts(w.cType, typ) {
 		return w.cMd, w.cNsc
 	}
-	md := mkMetadata(n, zone, rack)
-	nsc := model.NamespaceConfig{Name: "ns", InitialShardCount: 1, ReplicationFactor: uint32(rf), Policies: pols[pol]}
+	md := mkMetadata(n, zone, rack, typ)
+	nsc := model.NamespaceConfig{Name: "ns", InitialShardCount: 1, ReplicationFactor: uint32(rf), Policies: policyByName(pol)}
 	cfg := model.ClusterConfig{Namespaces: []model.NamespaceConfig{nsc}, ServerMetadata: md}
 	for i := 0; i < n; i++ {
 		cfg.Servers = append(cfg.Servers, srvVal[i])
 	}
 	w.vc.VerifSetConfig(cfg)
 	w.cfgSet, w.cN, w.cPol, w.cRF = true, n, pol, rf
-	w.cZone, w.cRack = append([]int{}, zone...), append([]int{}, rack...)
+	w.cZone, w.cRack, w.cType = append([]int{}, zone...), append([]int{}, rack...), append([]int{}, typ...)
 	w.cMd, w.cNsc = md, &nsc
-	w.cFeasible = feasible(n, rf, md, pols[pol])
+	w.cFeasible = feasible(n, rf, md, policyByName(pol))
 	return md, &nsc
 }
 
@@ -383,8 +463,9 @@ type selInput struct {
 	Part      string  `json:"part"` // "selector"
 	Mode      string  `json:"mode"` // coordinator | nil-supplier | nil-status
 	N         int     `json:"n"`
-	Zone      []int   `json:"zone"` // per server: 0 absent, 1..3 value
-	Rack      []int   `json:"rack"` // per server: 0 absent, 1..2 value
+	Zone      []int   `json:"zone"`           // per server: 0 absent, 1..3 value
+	Rack      []int   `json:"rack"`           // per server: 0 absent, 1..2 value
+	Type      []int   `json:"type,omitempty"` // third label (parts G-I): 0 absent, 1..n value
 	Policy    string  `json:"policy"`
 	RF        int     `json:"rf"`
 	ServerIdx uint32  `json:"serverIdx"`
@@ -420,7 +501,7 @@ func mkStatus(rf int, placement [][]int, serverIdx uint32) *model.ClusterStatus 
 
 // runSel evaluates one selector input against the real code; returns the outcome class and a violation (or nil).
 func (w *wk) runSel(in selInput) (string, *viol) {
-	md, nsc := w.setConfig(in.N, in.Zone, in.Rack, in.Policy, in.RF)
+	md, nsc := w.setConfig(in.N, in.Zone, in.Rack, in.Type, in.Policy, in.RF)
 	w.prio, w.shardDesc = in.Tie, false
 	var ids []string
 	var err error
@@ -437,7 +518,7 @@ func (w *wk) runSel(in selInput) (string, *viol) {
 		for i := 0; i < in.N; i++ {
 			cands.Add(srvID[i])
 		}
-		ctx := &ensemble.Context{Candidates: cands, CandidatesMetadata: md, Policies: pols[in.Policy], Replicas: in.RF}
+		ctx := &ensemble.Context{Candidates: cands, CandidatesMetadata: md, Policies: policyByName(in.Policy), Replicas: in.RF}
 		if in.Mode == "nil-supplier" {
 			ctx.Status = mkStatus(in.RF, in.Placement, in.ServerIdx)
 		}
@@ -464,7 +545,7 @@ func (w *wk) runSel(in selInput) (string, *viol) {
 		return "error:" + err.Error(), nil
 	}
 	cnt.add("selector_ensembles_checked", 1)
-	return "ok", checkEnsemble(ids, in.RF, in.N, md, pols[in.Policy])
+	return "ok", checkEnsemble(ids, in.RF, in.N, md, policyByName(in.Policy))
 }
 
 func (w *wk) distinct(k string) {
@@ -482,7 +563,7 @@ func (w *wk) evalSel(in selInput) {
 	out, v := w.runSel(in)
 	w.distinct("sel/" + in.Mode + "/n" + string(rune('0'+in.N)) + "/" + in.Policy + "/rf" + string(rune('0'+in.RF)) + "/" + out)
 	if v != nil {
-		agg.add(v.key, "selector-enum", v.msg+fmt.Sprintf(" [mode=%s n=%d zone=%v rack=%v policy=%s rf=%d]", in.Mode, in.N, in.Zone, in.Rack, in.Policy, in.RF), in, in.N*100+in.RF*10+len(in.Placement))
+		agg.add(v.key, "selector-enum", v.msg+fmt.Sprintf(" [mode=%s n=%d zone=%v rack=%v type=%v policy=%s rf=%d placement=%v tie=%v]", in.Mode, in.N, in.Zone, in.Rack, in.Type, in.Policy, in.RF, in.Placement, in.Tie), in, in.N*100+in.RF*10+len(in.Placement))
 	}
 }
 
@@ -611,6 +692,7 @@ func (d *driver) runBlocks(nBlocks int, f func(w *wk, block int)) {
 type labelCase struct {
 	n          int
 	zone, rack []int
+	typ        []int // third label, parts G-I only
 }
 
 func labelCases(n int, pol string, canonical bool) []labelCase {
@@ -618,7 +700,7 @@ func labelCases(n int, pol string, canonical bool) []labelCase {
 	zero := make([]int, n)
 	switch pol {
 	case "none":
-		out = append(out, labelCase{n, zero, zero})
+		out = append(out, labelCase{n: n, zone: zero, rack: zero})
 		// labels must not matter without a policy: one fully labelled variant
 		z := make([]int, n)
 		r := make([]int, n)
@@ -626,15 +708,15 @@ func labelCases(n int, pol string, canonical bool) []labelCase {
 			z[i] = 1 + i%3
 			r[i] = 1 + i%2
 		}
-		out = append(out, labelCase{n, z, r})
+		out = append(out, labelCase{n: n, zone: z, rack: r})
 	case "Z":
 		for _, z := range labelAssignments(n, 3, canonical) {
-			out = append(out, labelCase{n, z, zero})
+			out = append(out, labelCase{n: n, zone: z, rack: zero})
 		}
 	case "ZR":
 		for _, z := range labelAssignments(n, 3, canonical) {
 			for _, r := range labelAssignments(n, 2, canonical) {
-				out = append(out, labelCase{n, z, r})
+				out = append(out, labelCase{n: n, zone: z, rack: r})
 			}
 		}
 	}
@@ -727,14 +809,14 @@ func partC(d *driver, maxServers int) {
 		}
 		var lps []lp
 		zero := make([]int, n)
-		lps = append(lps, lp{"none", labelCase{n, zero, zero}})
+		lps = append(lps, lp{"none", labelCase{n: n, zone: zero, rack: zero}})
 		z1, r1, z2 := make([]int, n), make([]int, n), make([]int, n)
 		for i := 0; i < n; i++ {
 			z1[i] = 1 + i%3
 			r1[i] = 1 + (i/2)%2
 			z2[i] = 1 + i%2
 		}
-		lps = append(lps, lp{"Z", labelCase{n, z1, zero}}, lp{"Z", labelCase{n, z2, zero}}, lp{"ZR", labelCase{n, z1, r1}}, lp{"ZR", labelCase{n, z2, r1}})
+		lps = append(lps, lp{"Z", labelCase{n: n, zone: z1, rack: zero}}, lp{"Z", labelCase{n: n, zone: z2, rack: zero}}, lp{"ZR", labelCase{n: n, zone: z1, rack: r1}}, lp{"ZR", labelCase{n: n, zone: z2, rack: r1}})
 		const chunk = 64
 		nBlocks := (len(ms) + chunk - 1) / chunk
 		d.runBlocks(nBlocks, func(w *wk, b int) {
@@ -765,6 +847,7 @@ type balInput struct {
 	N         int     `json:"n"`
 	Zone      []int   `json:"zone"`
 	Rack      []int   `json:"rack"`
+	Type      []int   `json:"type,omitempty"`
 	Policy    string  `json:"policy"`
 	RF        int     `json:"rf"`
 	Shards    [][]int `json:"shards"`   // ensembles (server indices; 5 = x1, a server no longer in the config)
@@ -835,7 +918,8 @@ func applySwaps(actions []*balancer.SwapNodeAction, cur map[int64]model.ShardMet
 			bad = true
 		}
 		if !bad {
-			for _, label := range strictLabels(polOf(a.Shard)) {
+			for _, rule := range strictRules(polOf(a.Shard)) {
+				label := rule.label
 				tv, has := md[to].Labels[label]
 				if !has {
 					cnt.add("swap_target_without_rule_label", 1)
@@ -846,11 +930,11 @@ func applySwaps(actions []*balancer.SwapNodeAction, cur map[int64]model.ShardMet
 						continue
 					}
 					if mv, ok := md[m].Labels[label]; ok && mv == tv {
-						k := "swap:anti-affinity-violated"
+						k := "swap:anti-affinity-violated" + rule.keySuffix()
 						if second {
 							k += ":later-swap-of-same-shard-in-round"
 						}
-						out = append(out, viol{k, desc + fmt.Sprintf(": `To` shares %s=%s with remaining member %s under a strict rule", label, tv, m)})
+						out = append(out, viol{k, desc + fmt.Sprintf(": `To` shares %s=%s with remaining member %s under strict rule %d of %d", label, tv, m, rule.idx+1, rule.of)})
 						bad = true
 					}
 				}
@@ -890,7 +974,7 @@ func applySwaps(actions []*balancer.SwapNodeAction, cur map[int64]model.ShardMet
 }
 
 func (w *wk) runBal(in balInput) (string, []viol) {
-	md, _ := w.setConfig(in.N, in.Zone, in.Rack, in.Policy, in.RF)
+	md, _ := w.setConfig(in.N, in.Zone, in.Rack, in.Type, in.Policy, in.RF)
 	w.prio, w.shardDesc = in.Tie, in.ShardDesc
 	st := mkStatus(in.RF, in.Shards, 0)
 	w.statusRes.Update(st)
@@ -913,7 +997,7 @@ func (w *wk) runBal(in balInput) (string, []viol) {
 			cur[id] = smd.Clone()
 		}
 	}
-	vs := applySwaps(round.Actions, cur, func(int64) int { return in.RF }, in.N, md, func(int64) *policies.Policies { return pols[in.Policy] })
+	vs := applySwaps(round.Actions, cur, func(int64) int { return in.RF }, in.N, md, func(int64) *policies.Policies { return policyByName(in.Policy) })
 	perShard := map[int64]int{}
 	maxPer := 0
 	for _, a := range round.Actions {
@@ -939,7 +1023,7 @@ func (w *wk) evalBal(in balInput) {
 	out, vs := w.runBal(in)
 	w.distinct(fmt.Sprintf("bal/n%d/%s/rf%d/removed=%v/%s", in.N, in.Policy, in.RF, usesRemoved(in.Shards), out))
 	for _, v := range vs {
-		agg.add(v.key, "balancer-round", v.msg+fmt.Sprintf(" [n=%d zone=%v rack=%v policy=%s rf=%d shards=%v tie=%v shardDesc=%v]", in.N, in.Zone, in.Rack, in.Policy, in.RF, in.Shards, in.Tie, in.ShardDesc),
+		agg.add(v.key, "balancer-round", v.msg+fmt.Sprintf(" [n=%d zone=%v rack=%v type=%v policy=%s rf=%d shards=%v tie=%v shardDesc=%v]", in.N, in.Zone, in.Rack, in.Type, in.Policy, in.RF, in.Shards, in.Tie, in.ShardDesc),
 			in, in.N*100+in.RF*10+len(in.Shards))
 	}
 }
@@ -1061,6 +1145,216 @@ func partD(d *driver, maxServers int, scope func(n int, pol string) (cases []lab
 	}
 }
 
+// ---------------------------------------------------------------- parts G/H/I: three and four rules over three labels
+//
+// Policies: `rules` single-label rules over zone/rack/type that use all three labels, one per
+// renaming of the labels (first occurrences in the order Z,R,T: Z.R.T for three rules; Z.Z.R.T,
+// Z.R.Z.T, Z.R.R.T, Z.R.T.Z, Z.R.T.R, Z.R.T.T for four), every rule Strict or Relaxed (2^rules).
+// Label assignments: per label every (absent set, partition of the labelled servers into equal
+// values) = every assignment up to renaming of the values; all three labels independently.
+// Server symmetry: the label triples, the placements and the statuses are closed under renaming
+// of the cluster's servers, so (labels, placement, tie order t) is the image of
+// (t^-1 labels, t^-1 placement, identity order). Where stated the tie order is therefore fixed to
+// s1<s2<..<sn (the removed server x1 is not a cluster server: every position of x1 is enumerated).
+
+func rulePolicies(rules int) []string {
+	var seqs [][]int
+	cur := make([]int, rules)
+	var rec func(i, used int)
+	rec = func(i, used int) {
+		if i == rules {
+			if used == 3 {
+				seqs = append(seqs, append([]int{}, cur...))
+			}
+			return
+		}
+		for v := 0; v <= used && v < 3; v++ {
+			cur[i] = v
+			u := used
+			if v == used {
+				u++
+			}
+			rec(i+1, u)
+		}
+	}
+	rec(0, 0)
+	var out []string
+	for _, sq := range seqs {
+		for m := 0; m < 1<<rules; m++ {
+			var toks []string
+			for i, l := range sq {
+				mode := "s"
+				if m&(1<<i) != 0 {
+					mode = "r"
+				}
+				toks = append(toks, string("ZRT"[l])+mode)
+			}
+			out = append(out, strings.Join(toks, "."))
+		}
+	}
+	return out
+}
+
+// tripleCases: zone x rack x type, each label every assignment up to value renaming (n values
+// available, so every partition occurs); full=true keeps only the assignments without absent labels.
+func tripleCases(n int, full bool) []labelCase {
+	var one [][]int
+	for _, a := range labelAssignments(n, n, true) {
+		if full && hasZero(a) {
+			continue
+		}
+		one = append(one, a)
+	}
+	var out []labelCase
+	for _, z := range one {
+		for _, r := range one {
+			for _, t := range one {
+				out = append(out, labelCase{n: n, zone: z, rack: r, typ: t})
+			}
+		}
+	}
+	return out
+}
+
+// part G: selectNewEnsemble, uniform load (see part A for why all tie orders = all pick sequences).
+func partG(d *driver, tag string, polNames []string, n int, cases []labelCase, perms [][]int) {
+	const chunk = 8
+	nb := (len(cases) + chunk - 1) / chunk
+	d.runBlocks(nb, func(w *wk, b int) {
+		for ci := b * chunk; ci < (b+1)*chunk && ci < len(cases); ci++ {
+			lc := cases[ci]
+			for _, pol := range polNames {
+				for rf := 1; rf <= 4; rf++ {
+					for _, p := range perms {
+						w.evalSel(selInput{Part: "selector", Mode: "coordinator", N: n, Zone: lc.zone, Rack: lc.rack, Type: lc.typ, Policy: pol, RF: rf, Tie: p})
+					}
+					d.evals.Add(int64(len(perms)))
+				}
+			}
+		}
+	})
+	cnt.add(fmt.Sprintf("partG_%s_n%d_%dtieorders_label_triples", tag, n, len(perms)), int64(len(cases)))
+}
+
+// part H: selectNewEnsemble on top of every existing placement of <= maxShards shards (ensembles =
+// 1..3-subsets of cluster + removed server x1), RF 2..3 (RF 1 has no anti-affinity to violate; it is in part G), tie order s1<..<sn (server symmetry).
+func partH(d *driver, tag string, polNames []string, n int, cases []labelCase, maxShards int) {
+	nodes := append(rangeInts(n), maxN)
+	var ens [][]int
+	for k := 1; k <= 3 && k <= len(nodes); k++ {
+		ens = append(ens, subsets(nodes, k)...)
+	}
+	ms := multisets(len(ens), maxShards)
+	tie := rangeInts(n)
+	d.runBlocks(len(cases), func(w *wk, b int) {
+		lc := cases[b]
+		for _, pol := range polNames {
+			for rf := 2; rf <= 3; rf++ {
+				for mi := range ms {
+					var placement [][]int
+					for _, e := range ms[mi] {
+						placement = append(placement, ens[e])
+					}
+					w.evalSel(selInput{Part: "selector", Mode: "coordinator", N: n, Zone: lc.zone, Rack: lc.rack, Type: lc.typ, Policy: pol, RF: rf,
+						ServerIdx: uint32(mi % (n + 1)), Tie: tie, Placement: placement})
+				}
+				d.evals.Add(int64(len(ms)))
+			}
+		}
+	})
+	cnt.add(fmt.Sprintf("partH_%s_n%d_le%dshards_label_triples_x_placements", tag, n, maxShards), int64(len(cases)*len(ms)))
+}
+
+// part I: one real rebalance round for every status of <= maxShards shards (all multisets of the
+// RF-subsets of cluster [+ x1]), 0-1 removed server, both shard orders; tie order s1<..<sn with
+// x1 at every position (server symmetry).
+func partI(d *driver, tag string, polNames []string, n int, cases []labelCase, maxShards int) {
+	type st struct {
+		rf     int
+		shards [][]int
+		ties   [][]int
+	}
+	// the round takes one load-ratio snapshot: node ratio = shard count / total, so a tie order acts
+	// only through the resulting order of the nodes; positions of x1 that give the same order are merged
+	effective := func(nodes []int, shards [][]int, tie []int) string {
+		count := map[int]int{}
+		for _, sh := range shards {
+			for _, x := range sh {
+				count[x]++
+			}
+		}
+		pos := map[int]int{}
+		for i, x := range tie {
+			pos[x] = i
+		}
+		o := append([]int{}, nodes...)
+		sort.SliceStable(o, func(i, j int) bool {
+			if count[o[i]] != count[o[j]] {
+				return count[o[i]] < count[o[j]]
+			}
+			return pos[o[i]] < pos[o[j]]
+		})
+		return fmt.Sprint(o)
+	}
+	var sts []st
+	for _, removed := range []bool{false, true} {
+		nodes := rangeInts(n)
+		allTies := [][]int{rangeInts(n)}
+		if removed {
+			nodes = append(nodes, maxN)
+			allTies = nil
+			for pos := 0; pos <= n; pos++ {
+				t := append([]int{}, rangeInts(n)[:pos]...)
+				t = append(t, maxN)
+				t = append(t, rangeInts(n)[pos:]...)
+				allTies = append(allTies, t)
+			}
+		}
+		for rf := 1; rf <= 4 && rf <= len(nodes); rf++ {
+			ens := subsets(nodes, rf)
+			for _, m := range multisets(len(ens), maxShards) {
+				var shards [][]int
+				for _, e := range m {
+					shards = append(shards, ens[e])
+				}
+				if removed && !usesRemoved(shards) {
+					continue
+				}
+				seen := map[string]bool{}
+				var ties [][]int
+				for _, t := range allTies {
+					if k := effective(nodes, shards, t); !seen[k] {
+						seen[k] = true
+						ties = append(ties, t)
+					}
+				}
+				sts = append(sts, st{rf, shards, ties})
+			}
+		}
+	}
+	sort.SliceStable(sts, func(i, j int) bool { return sts[i].rf < sts[j].rf })
+	d.runBlocks(len(cases), func(w *wk, b int) {
+		lc := cases[b]
+		k := int64(0)
+		for _, pol := range polNames {
+			for _, s := range sts {
+				for _, t := range s.ties {
+					for _, desc := range []bool{false, true} {
+						if desc && len(s.shards) < 2 {
+							continue
+						}
+						w.evalBal(balInput{Part: "balancer", N: n, Zone: lc.zone, Rack: lc.rack, Type: lc.typ, Policy: pol, RF: s.rf, Shards: s.shards, Tie: t, ShardDesc: desc})
+						k++
+					}
+				}
+			}
+		}
+		d.evals.Add(k)
+	})
+	cnt.add(fmt.Sprintf("partI_%s_n%d_le%dshards_label_triples", tag, n, maxShards), int64(len(cases)))
+	cnt.add(fmt.Sprintf("partI_%s_n%d_le%dshards_statuses", tag, n, maxShards), int64(len(sts)))
+}
+
 // part F: the minimal failing statuses with the UNMODIFIED load-ratio algorithm (real map-iteration
 // tie order), repeated: confirms that the violations do not depend on the tie-order seam.
 func partF(run *ev.Run, reps int) {
@@ -1157,7 +1451,7 @@ func (in *e1inst) config() model.ClusterConfig {
 	cfg := model.ClusterConfig{ServerMetadata: map[string]model.ServerMetadata{}}
 	for _, n := range e1Namespaces {
 		if in.nss[n.name] {
-			cfg.Namespaces = append(cfg.Namespaces, model.NamespaceConfig{Name: n.name, InitialShardCount: n.shards, ReplicationFactor: n.rf, Policies: pols[n.pol]})
+			cfg.Namespaces = append(cfg.Namespaces, model.NamespaceConfig{Name: n.name, InitialShardCount: n.shards, ReplicationFactor: n.rf, Policies: policyByName(n.pol)})
 		}
 	}
 	md := in.metadata()
@@ -1176,7 +1470,7 @@ func (in *e1inst) Close() { in.vc.Close(); in.bal.Close() }
 
 // metadata of the servers that are in the config (labels of a removed server are not known to the coordinator)
 func (in *e1inst) metadata() map[string]model.ServerMetadata {
-	all := mkMetadata(maxN, e1Zone, e1Rack)
+	all := mkMetadata(maxN, e1Zone, e1Rack, nil)
 	for i := 0; i < maxN; i++ {
 		if !in.servers[i] {
 			delete(all, srvID[i])
@@ -1285,7 +1579,7 @@ func (in *e1inst) Step(op int) (bool, *ev.Violation) {
 			rfOf[id] = int(nss.ReplicationFactor)
 			for _, n := range e1Namespaces {
 				if n.name == name {
-					polOf[id] = pols[n.pol]
+					polOf[id] = policyByName(n.pol)
 				}
 			}
 		}
@@ -1346,7 +1640,7 @@ func (in *e1inst) apply(_ map[string]model.ServerMetadata) bool {
 		}
 		cnt.add("e1_created_ensembles_checked", 1)
 		ids := ensIDs(smd.Ensemble)
-		if v := checkEnsemble(ids, int(nsd.rf), maxN, md, pols[nsd.pol]); v != nil {
+		if v := checkEnsemble(ids, int(nsd.rf), maxN, md, policyByName(nsd.pol)); v != nil {
 			in.violate(*v)
 		}
 		for _, id := range ids {
@@ -1408,13 +1702,21 @@ func main() {
 		fmt.Sscanf(b, "%d", &sec)
 		budget = time.Duration(sec) * time.Second
 	}
+	if pf := os.Getenv("VERIF_CPUPROF"); pf != "" {
+		f, err := os.Create(pf)
+		if err == nil {
+			_ = pprof.StartCPUProfile(f)
+			defer pprof.StopCPUProfile()
+		}
+	}
 	start := time.Now()
 	d := &driver{deadline: start.Add(budget)}
 	parts := os.Getenv("VERIF_PARTS")
+	const allParts = "ABCDEGHI"
 	if parts == "" {
-		parts = "ABCDE"
+		parts = allParts
 	}
-	if parts != "ABCDE" {
+	if parts != allParts {
 		run.NotExhaustive("only parts " + parts + " were run (VERIF_PARTS)")
 	}
 	has := func(p string) bool { return strings.Contains(parts, p) }
@@ -1471,14 +1773,14 @@ func main() {
 		}
 		switch pol {
 		case "none":
-			return []labelCase{{n, zero, zero}}, tieCap
+			return []labelCase{{n: n, zone: zero, rack: zero}}, tieCap
 		case "Z":
 			if n == maxN || (!thorough && n == 4) {
 				return nil, 0
 			}
 			var out []labelCase
 			for _, z := range zones {
-				out = append(out, labelCase{n, z, zero})
+				out = append(out, labelCase{n: n, zone: z, rack: zero})
 			}
 			return out, tieCap
 		default:
@@ -1488,13 +1790,51 @@ func main() {
 			var out []labelCase
 			for _, z := range zones {
 				for _, r := range racks() {
-					out = append(out, labelCase{n, z, r})
+					out = append(out, labelCase{n: n, zone: z, rack: r})
 				}
 			}
 			return out, tieCap
 		}
 	})
 	run.Add("partD_balancer_evaluations", d.evals.Swap(0))
+
+	// G/H/I: namespaces with three and four anti-affinity rules over zone/rack/type
+	p3, p4 := rulePolicies(3), rulePolicies(4)
+	run.Coverage["three_rule_policies"] = p3
+	run.Coverage["four_rule_policies"] = len(p4)
+	ident := func(n int) [][]int { return [][]int{rangeInts(n)} }
+	allPerms := func(n int) [][]int { return permutations(rangeInts(n)) }
+	// quick bounds first (small clusters first: a deadline cut removes the biggest spaces only);
+	// the thorough-only spaces follow after part E.
+	all := func(n int) []labelCase { return tripleCases(n, false) }
+	full := func(n int) []labelCase { return tripleCases(n, true) }
+	if has("G") {
+		for n := 1; n <= 3; n++ {
+			partG(d, "3rules", p3, n, all(n), allPerms(n)) // no server-symmetry assumption up to n=3
+		}
+		partG(d, "4rules", p4, 1, all(1), allPerms(1))
+		partG(d, "4rules", p4, 2, all(2), allPerms(2))
+		partG(d, "3rules_fully_labelled", p3, 4, full(4), ident(4))
+		partG(d, "4rules_fully_labelled", p4, 3, full(3), allPerms(3))
+	}
+	run.Add("partG_selector_evaluations", d.evals.Swap(0))
+	if has("H") {
+		for n := 1; n <= 2; n++ {
+			partH(d, "3rules", p3, n, all(n), 2)
+		}
+		partH(d, "4rules", p4, 1, all(1), 2)
+		partH(d, "4rules", p4, 2, all(2), 1)
+		partH(d, "3rules_fully_labelled", p3, 3, full(3), 2)
+	}
+	run.Add("partH_selector_evaluations", d.evals.Swap(0))
+	if has("I") {
+		partI(d, "3rules", p3, 1, all(1), 3)
+		partI(d, "3rules", p3, 2, all(2), 2)
+		partI(d, "4rules", p4, 1, all(1), 2)
+		partI(d, "4rules_fully_labelled", p4, 2, full(2), 2)
+		partI(d, "3rules_fully_labelled", p3, 3, full(3), 2)
+	}
+	run.Add("partI_balancer_evaluations", d.evals.Swap(0))
 	if d.cut.Load() {
 		run.NotExhaustive("input enumeration cut by the deadline")
 	}
@@ -1526,6 +1866,35 @@ func main() {
 		totalStates += res.States
 	}
 
+	if thorough {
+		if has("G") {
+			partG(d, "4rules", p4, 3, all(3), allPerms(3))
+			partG(d, "3rules_fully_labelled", p3, 4, full(4), allPerms(4))
+			partG(d, "3rules", p3, 4, all(4), ident(4))
+			partG(d, "4rules_fully_labelled", p4, 4, full(4), ident(4))
+		}
+		run.Add("partG_selector_evaluations", d.evals.Swap(0))
+		if has("H") {
+			partH(d, "4rules", p4, 2, all(2), 2)
+			partH(d, "3rules", p3, 3, all(3), 2) // includes the <=1-shard placements
+			partH(d, "4rules_fully_labelled", p4, 3, full(3), 2)
+			partH(d, "4rules", p4, 3, all(3), 1)
+			partH(d, "3rules_fully_labelled", p3, 4, full(4), 2)
+		}
+		run.Add("partH_selector_evaluations", d.evals.Swap(0))
+		if has("I") {
+			partI(d, "3rules", p3, 2, all(2), 3)
+			partI(d, "4rules", p4, 2, all(2), 2)
+			partI(d, "3rules_fully_labelled", p3, 3, full(3), 3)
+			partI(d, "4rules_fully_labelled", p4, 3, full(3), 1)
+			partI(d, "3rules", p3, 3, all(3), 1)
+			partI(d, "3rules_fully_labelled", p3, 4, full(4), 1)
+		}
+		run.Add("partI_balancer_evaluations", d.evals.Swap(0))
+		if d.cut.Load() {
+			run.NotExhaustive("three/four-rule enumeration cut by the deadline")
+		}
+	}
 	if thorough && has("A") {
 		// every label assignment, no symmetry assumption; the biggest block (n=5, zone+rack) last
 		d.deadline = start.Add(budget + 3*time.Minute)
@@ -1545,7 +1914,7 @@ func main() {
 	}
 	cnt.mu.Unlock()
 	run.Coverage["observations_outside_the_property"] = obs
-	run.Add("evaluations", run.Get("partF_real_algorithm_rounds")+run.Get("partA_selector_evaluations")+run.Get("partB_selector_evaluations")+run.Get("partC_selector_evaluations")+run.Get("partD_balancer_evaluations"))
+	run.Add("evaluations", run.Get("partF_real_algorithm_rounds")+run.Get("partA_selector_evaluations")+run.Get("partB_selector_evaluations")+run.Get("partC_selector_evaluations")+run.Get("partD_balancer_evaluations")+run.Get("partG_selector_evaluations")+run.Get("partH_selector_evaluations")+run.Get("partI_balancer_evaluations"))
 	distinctMu.Lock()
 	for k := range distinctSet {
 		run.Distinct(k)
@@ -1554,6 +1923,8 @@ func main() {
 	run.DistinctN(totalStates)
 	run.Coverage["e1_max_depth"] = depth
 	run.Sample(selInput{Part: "selector", Mode: "coordinator", N: 3, Zone: []int{1, 2, 2}, Rack: []int{1, 1, 2}, Policy: "ZR", RF: 2, Tie: []int{1, 0, 2}})
+	run.Sample(selInput{Part: "selector", Mode: "coordinator", N: 3, Zone: []int{1, 2, 3}, Rack: []int{1, 1, 2}, Type: []int{1, 2, 1}, Policy: "Zs.Rs.Ts", RF: 2, Tie: []int{0, 1, 2}})
+	run.Sample(balInput{Part: "balancer", N: 3, Zone: []int{1, 2, 3}, Rack: []int{1, 1, 2}, Type: []int{1, 2, 1}, Policy: "Zs.Rs.Ts", RF: 2, Shards: [][]int{{0, 5}}, Tie: []int{0, 1, 2, 5}})
 	run.Sample(balInput{Part: "balancer", N: 4, Zone: []int{0, 0, 0, 0}, Rack: []int{0, 0, 0, 0}, Policy: "none", RF: 3, Shards: [][]int{{0, 1, 5}, {0, 1, 2}}, Tie: []int{0, 1, 2, 3, 5}})
 	run.Assume = []string{
 		"multi-label anti-affinity rules and the Relaxed mode are outside the oracle (the property speaks about strict rules; a member without the rule's label is not counted as a conflict)",
@@ -1561,8 +1932,11 @@ func main() {
 		"the order of equally loaded nodes and of the shards inside a node (Go map iteration in DefaultShardsRank / GroupingShardsNodeByStatus) is enumerated through the LoadRatioAlgorithm seam: exhaustively in part A and in part D up to the tie cap, rotations+reversals beyond the cap; the map-iteration order inside the anti-affinity selector only matters without a load-ratio supplier (part B), where each input is run several times",
 		"swap actions are applied through replaceInList as swapNode does under its mutex; leader election and follower catch-up of swapNode are not run",
 		"quick tier enumerates label assignments up to renaming of label values; the thorough tier enumerates every assignment in part A",
+		"parts G/H/I (three and four rules): rule lists are enumerated up to renaming of the three labels (metadata and rule evaluation treat label names alike) and label values up to renaming; where the tie order is fixed to s1<..<sn the enumeration relies on the selection being invariant under renaming of the cluster's servers (label triples, placements and statuses are closed under that renaming); part G enumerates all n! orders for n<=3 (three rules; four rules: all orders for n<=2 and for the fully labelled n=3 clusters, thorough: all of n=3) without that assumption",
+		"a Relaxed rule is outside the oracle (only strict rules are checked); the real selector treats an unsatisfiable Relaxed rule as a refusal (ErrUnsupportedAntiAffinityMode)",
 	}
-	os.Exit(run.Finish("every input of: (A) selectNewEnsemble for clusters of 1..5 servers x zone in {absent,3 values}^n x rack in {absent,2 values}^n x policy {none, strict zone, strict zone + strict rack} x RF 1..4 x all n! tie orders of the load-ratio list; (B) ensemble.Selector without load-ratio supplier for every ServerIdx 0..n (repeated) and Status=nil; (C) selectNewEnsemble over all multisets of <=3 existing shards; (D) one real rebalanceEnsemble round for every status with <=3 shards, 0-1 removed server, policy, RF, tie order, swaps applied in emission order through replaceInList; (E) BFS over add-namespace/add-server/remove-server/rebalance sequences"))
+	pprof.StopCPUProfile()
+	os.Exit(run.Finish("every input of: (A) selectNewEnsemble for clusters of 1..5 servers x zone in {absent,3 values}^n x rack in {absent,2 values}^n x policy {none, strict zone, strict zone + strict rack} x RF 1..4 x all n! tie orders of the load-ratio list; (B) ensemble.Selector without load-ratio supplier for every ServerIdx 0..n (repeated) and Status=nil; (C) selectNewEnsemble over all multisets of <=3 existing shards; (D) one real rebalanceEnsemble round for every status with <=3 shards, 0-1 removed server, policy, RF, tie order, swaps applied in emission order through replaceInList; (E) BFS over add-namespace/add-server/remove-server/rebalance sequences; (G) selectNewEnsemble for namespaces with 3 rules (zone,rack,type) x {Strict,Relaxed}^3 and 4 rules (6 label sequences x {Strict,Relaxed}^4), every label assignment up to value renaming (absent allowed) of 1..3 servers (3 rules: + fully labelled 4 servers), RF 1..4, tie orders as stated in the coverage counters; (H) the same on top of every placement of <=2 existing shards (RF 2..3); (I) one real rebalance round for every status of <=2 shards (n=1: <=3), 0-1 removed server, 3 rules for all label triples of n<=2 and the fully labelled n=3 clusters, 4 rules for n=1 and fully labelled n=2; the thorough tier extends G/H/I as listed in the partG/H/I_* counters"))
 }
 
 func hasZero(v []int) bool {
